@@ -137,7 +137,47 @@ func concPause(dir string, a []string) string {
 	if !held {
 		res += " (point-not-hit)"
 	}
-	return res
+	// the outcome in canonical form, for the comparison with the protocol model (Conc.v): what A, B, C returned and
+	// the live messages / NextOffset afterwards
+	var sb strings.Builder
+	for cid := 1; cid <= 3; cid++ {
+		for _, o := range rec.ops {
+			if o.ClientId == cid {
+				fmt.Fprintf(&sb, " c%d=%s", cid, outcomeOf(o.Input.(cinput), o.Output.(coutput)))
+			}
+		}
+	}
+	var live []string
+	off := klevdb.OffsetOldest
+	for i := 0; i < 1000; i++ {
+		n, ms, err := l.Consume(off, 32)
+		if err != nil || len(ms) == 0 {
+			break
+		}
+		for _, m := range ms {
+			live = append(live, msgId(m))
+		}
+		off = n
+	}
+	nx, _ := l.NextOffset()
+	fmt.Fprintf(&sb, " live=%s next=%d", strings.Join(live, ","), nx)
+	return res + " |" + sb.String()
+}
+
+func outcomeOf(in cinput, out coutput) string {
+	if out.err != "" {
+		return "err:" + out.err
+	}
+	switch in.op {
+	case "pub", "next", "sync":
+		return fmt.Sprintf("n:%d", out.next)
+	case "gc":
+		return "ok"
+	case "cons":
+		return fmt.Sprintf("n:%d:%s", out.next, strings.Join(out.msgs, ","))
+	default:
+		return "m:" + strings.Join(out.msgs, ",")
+	}
 }
 
 var _ = fmt.Sprint
